@@ -67,10 +67,13 @@ def enumerate_faults(world, opts, facts):
                     if r["transaction_type"] != "STAKING":
                         out.append(_cellfault("nonpositive", "crypto_in_zero", name, tt, i, "crypto_in", 0))
                         out.append(_cellfault("nonpositive", "crypto_in_negative", name, tt, i, "crypto_in", Decimal("-1.5")))
+                        out.append(_cellfault("nonpositive", "crypto_in_negative_tiny", name, tt, i, "crypto_in", Decimal("-0.00000001")))
                     for f in ("crypto_fee", "fiat_fee"):
                         if f in hdr and (f == "fiat_fee" and r.get("crypto_fee") is None or f == "crypto_fee" and r.get("fiat_fee") is None):
                             out.append(_cellfault("nonpositive", f + "_negative", name, tt, i, f, Decimal("-0.25")))
+                            out.append(_cellfault("nonpositive", f + "_negative_tiny", name, tt, i, f, Decimal("-0.00000001")))
                     out.append(_cellfault("nonpositive", "spot_negative", name, tt, i, "spot_price", Decimal("-3")))
+                    out.append(_cellfault("nonpositive", "spot_negative_tiny", name, tt, i, "spot_price", Decimal("-0.00000001")))
                     out.append(_cellfault("zero_spot", "in_spot_zero", name, tt, i, "spot_price", 0))
                     out.append(_cellfault("zero_spot", "in_spot_empty", name, tt, i, "spot_price", None))
                     if "crypto_fee" in hdr and "fiat_fee" in hdr:
@@ -79,22 +82,28 @@ def enumerate_faults(world, opts, facts):
                     if r["transaction_type"] != "FEE":
                         out.append(_cellfault("nonpositive", "crypto_out_zero", name, tt, i, "crypto_out_no_fee", 0))
                         out.append(_cellfault("nonpositive", "crypto_out_negative", name, tt, i, "crypto_out_no_fee", Decimal("-2")))
+                        out.append(_cellfault("nonpositive", "crypto_out_negative_tiny", name, tt, i, "crypto_out_no_fee", Decimal("-0.00000001")))
                         out.append(_cellfault("zero_spot", "out_spot_zero", name, tt, i, "spot_price", 0))
                         out.append(_cellfault("zero_spot", "out_spot_empty", name, tt, i, "spot_price", None))
                     else:
                         out.append(_cellfault("nonpositive", "fee_row_zero_fee", name, tt, i, "crypto_fee", 0))
                     out.append(_cellfault("nonpositive", "out_fee_negative", name, tt, i, "crypto_fee", Decimal("-0.5")))
+                    out.append(_cellfault("nonpositive", "out_fee_negative_tiny", name, tt, i, "crypto_fee", Decimal("-0.00000001")))
                     out.append(_cellfault("nonpositive", "spot_negative", name, tt, i, "spot_price", Decimal("-3")))
                 else:
                     out.append(_cellfault("nonpositive", "sent_zero", name, tt, i, "crypto_sent", 0))
                     out.append(_cellfault("nonpositive", "sent_negative", name, tt, i, "crypto_sent", Decimal("-1")))
                     out.append(_cellfault("nonpositive", "received_negative", name, tt, i, "crypto_received", Decimal("-1")))
+                    out.append(_cellfault("nonpositive", "sent_negative_tiny", name, tt, i, "crypto_sent", Decimal("-0.00000001")))
+                    out.append(_cellfault("nonpositive", "received_negative_tiny", name, tt, i, "crypto_received", Decimal("-0.00000001")))
                     if r.get("spot_price") is not None:
                         out.append(_cellfault("nonpositive", "spot_negative", name, tt, i, "spot_price", Decimal("-3")))
                     if W.D(r["crypto_sent"]) > W.D(r["crypto_received"]):
                         out.append(_cellfault("zero_spot", "intra_fee_spot_zero", name, tt, i, "spot_price", 0))
                         out.append(_cellfault("zero_spot", "intra_fee_spot_empty", name, tt, i, "spot_price", None))
                     out.append(_cellfault("recv_gt_sent", "recv_gt_sent", name, tt, i, "crypto_received", W.D(r["crypto_sent"]) + Decimal("0.5")))
+                    out.append(_cellfault("recv_gt_sent", "recv_gt_sent_small", name, tt, i, "crypto_received", W.D(r["crypto_sent"]) + Decimal("0.004")))
+                    out.append(_cellfault("recv_gt_sent", "recv_gt_sent_tiny", name, tt, i, "crypto_received", W.D(r["crypto_sent"]) + Decimal("0.00000001")))
                 # non-numeric numbers
                 mandatory_numeric = {"IN": ["spot_price", "crypto_in"], "OUT": ["crypto_out_no_fee", "crypto_fee"] + (["spot_price"] if r.get("transaction_type") != "FEE" else []),
                                      "INTRA": ["crypto_sent", "crypto_received"]}[tt]
@@ -111,6 +120,8 @@ def enumerate_faults(world, opts, facts):
                 out.append({"class": "structure", "kind": "keyword_inside_table", "sheet": name, "table": tt, "row": i, "keyword": {"IN": "OUT", "OUT": "INTRA", "INTRA": "IN"}[tt]})
             # table level structure faults
             out.append({"class": "structure", "kind": "delete_table_end", "sheet": name, "table": tt})
+            if t is s["tables"][-1]:
+                out.append({"class": "structure", "kind": "delete_table_end_at_eof", "sheet": name, "table": tt})
             out.append({"class": "structure", "kind": "spurious_table_end", "sheet": name, "table": tt})
             if t["rows"]:
                 out.append({"class": "structure", "kind": "repeat_table", "sheet": name, "table": tt})
@@ -130,6 +141,8 @@ def enumerate_faults(world, opts, facts):
         out.append({"class": "config", "kind": "empty_list", "field": field})
     for table in ("IN", "OUT", "INTRA"):
         out.append({"class": "config", "kind": "duplicate_column", "table": table})
+        if "notes" in world["headers"][table] and "unique_id" in world["headers"][table]:
+            out.append({"class": "config", "kind": "duplicate_column", "table": table, "pair": "harmless"})
         out.append({"class": "config", "kind": "noninteger_column", "table": table, "value": "abc"})
         out.append({"class": "config", "kind": "noninteger_column", "table": table, "value": "1.5"})
         out.append({"class": "config", "kind": "negative_column", "table": table})
@@ -285,10 +298,13 @@ def apply_fault(world, opts, fault):
             s = sec(hs[fault["table"]])
             body = [ln for ln in s[1] if "=" in ln]
             if kind == "duplicate_column":
-                k0, v0 = [x.strip() for x in body[0].split("=")]
-                k1 = body[1].split("=")[0].strip()
+                keys = {ln.split("=")[0].strip(): ln.split("=")[1].strip() for ln in body}
+                if fault.get("pair") == "harmless" and "notes" in keys and "unique_id" in keys:
+                    k1, v0 = "notes", keys["unique_id"]  # two optional text fields on one column: nothing else would stop the run
+                else:
+                    v0 = body[0].split("=")[1].strip()
+                    k1 = body[1].split("=")[0].strip()
                 s[1] = [ln if not ln.startswith(k1 + " =") else "%s = %s" % (k1, v0) for ln in s[1]]
-                del k0
             elif kind == "noninteger_column":
                 k1 = body[-1].split("=")[0].strip()
                 s[1] = [ln if not ln.startswith(k1 + " =") else "%s = %s" % (k1, fault["value"]) for ln in s[1]]
@@ -399,6 +415,8 @@ def _apply_grid_op(world, sheet, grid, index, op):
         grid.insert(index[(tt, op["row"])], [op["keyword"]] + [None] * (width - 1))
     elif kind == "delete_table_end":
         del grid[index[(tt, "end")]]
+    elif kind == "delete_table_end_at_eof":
+        del grid[index[(tt, "end")]:]  # the sheet ends inside the last table
     elif kind == "spurious_table_end":
         grid.insert(index[(tt, "end")] + 1, ["TABLE END"] + [None] * (width - 1))
     elif kind == "repeat_table":
